@@ -466,3 +466,80 @@ Definition write_sorted (bsz : N) (lens : list N) (pa : list (sid * N)) (oa : li
   | Panic => Panic
   | OutOfFuel => OutOfFuel
   end.
+
+(* ------------------------------------------------------------------ index file registry: write and load *)
+(* frac/active_sealer.go writeSealedFraction + frac/disk_blocks_writer.go (sections, WriteEmptyBlock,
+   BlockFormer.FlushForced writes nothing for empty data) and frac/sealed_loader.go Loader.Load.
+   A registry entry is (on-disk length, ext1, ext2); an entry of length 0 ends a section. Block contents,
+   compression and the positions block's body (IDsTotal as a little-endian uint32) are outside. *)
+Definition hdr := (N * N * N)%type.
+Definition h_len (h : hdr) : N := fst (fst h).
+Definition h_ext1 (h : hdr) : N := snd (fst h).
+Definition h_ext2 (h : hdr) : N := snd h.
+Definition empty_hdr : hdr := (0, 0, 0)%N.
+
+Record image := mkImage {
+  im_info : N;                          (* length of the info block *)
+  im_tok : list N;                      (* lengths of the token blocks *)
+  im_tab : list N;                      (* lengths of the token table blocks *)
+  im_pos : N;                           (* length of the positions block *)
+  im_ids : list (sid * (N * N * N));    (* per ID block: its minimal ID, lengths of the MID / RID / Pos blocks *)
+  im_lids : list (N * block)            (* per LID block: on-disk length, the block *)
+}.
+
+Definition plain (l : N) : hdr := (l, 0, 0)%N.
+Definition registry_of (im : image) : list hdr :=
+  plain (im_info im) :: map plain (im_tok im) ++ [empty_hdr]
+  ++ map plain (im_tab im) ++ [empty_hdr]
+  ++ [plain (im_pos im)]
+  ++ flat_map (fun x => let '(id, (a, b, c)) := x in [(a, fst id, snd id); plain b; plain c]) (im_ids im)
+  ++ [empty_hdr]
+  ++ flat_map (fun x => let '(l, b) := x in
+                        if is_nil (pack (b_chunks b)) then [] (* FlushForced: nothing to write *)
+                        else [(l, fst (ext_of b), snd (ext_of b))]) (im_lids im)
+  ++ [empty_hdr].
+
+(* what sealing keeps in memory (PreloadedData): MinBlockIDs, DiskStartBlockIndex, lids.Table with StartIndex *)
+Record tables := mkTables { tb_mins : list sid; tb_ids_start : nat; tb_lids_start : nat; tb_lids : table }.
+
+Definition preloaded (im : image) : tables :=
+  let ids_start := 1 + length (im_tok im) + 1 + length (im_tab im) + 1 + 1 in
+  mkTables (map fst (im_ids im)) ids_start (ids_start + 3 * length (im_ids im) + 1)
+           (table_of (map snd (im_lids im))).
+
+(* skipBlock until an empty header: rest of the registry and the index after it; None = read past the end *)
+Fixpoint skip_sec (l : list hdr) (n : nat) : option (list hdr * nat) :=
+  match l with
+  | [] => None
+  | h :: r => if (h_len h =? 0)%N then Some (r, S n) else skip_sec r (S n)
+  end.
+(* loadIDs loop: MIDs header carries the block's minimal ID; RIDs and Pos blocks are skipped *)
+Fixpoint read_ids (l : list hdr) (n : nat) (acc : list sid) : option (list sid * list hdr * nat) :=
+  match l with
+  | [] => None
+  | h :: r => if (h_len h =? 0)%N then Some (rev acc, r, S n)
+              else match r with
+                   | _ :: _ :: r2 => read_ids r2 (S (S (S n))) ((h_ext1 h, h_ext2 h) :: acc)
+                   | _ => None
+                   end
+  end.
+(* loadLIDsBlocksTable loop *)
+Fixpoint read_lids (l : list hdr) (acc : list (N * N)) : option (list (N * N)) :=
+  match l with
+  | [] => None
+  | h :: r => if (h_len h =? 0)%N then Some (rev acc) else read_lids r ((h_ext1 h, h_ext2 h) :: acc)
+  end.
+
+(* Loader.Load: blockIndex = 1 (info already read); skipTokens; loadIDs; loadLIDsBlocksTable *)
+Definition load (reg : list hdr) : option tables :=
+  match reg with
+  | [] => None
+  | _ :: l1 =>
+      match skip_sec l1 1 with None => None | Some (l2, n2) =>
+      match skip_sec l2 n2 with None => None | Some (l3, n3) =>
+      match l3 with [] => None | _ :: l4 =>
+      match read_ids l4 (S n3) [] with None => None | Some (mins, l5, n5) =>
+      match read_lids l5 [] with None => None | Some exts =>
+        Some (mkTables mins (S n3) n5 (table_of_ext exts))
+      end end end end end
+  end.
